@@ -28,6 +28,7 @@ func init() {
 		Rule{ID: "R02c", Doc: "type switch exhaustiveness", Floor: 10, AllVariants: true, Run: r02c},
 		Rule{ID: "R02d", Doc: "header bits and slots", Floor: 10, AllVariants: true, Run: r02d},
 		Rule{ID: "R02e", Doc: "section coverage in wire order", Floor: 4, AllVariants: true, Run: r02e},
+		Rule{ID: "R09b", Doc: "Msg.Pack's element discipline: the OPT record is moved only when a size limit applies, nothing else is reordered or skipped without a limit (shared with C09)", Floor: 14, AllVariants: true, Run: r09b},
 		Rule{ID: "R01f", Doc: "narrowing conversions in the codec (RDLENGTH, label and name lengths, compression pointers) are range-proved or reviewed", Floor: 10, Run: r01fCodec},
 		Rule{ID: "R02f", Doc: "compression key and pointer range", Floor: 5, AllVariants: true, Run: r02f},
 		Rule{ID: "R20e", Doc: "decoded buffers have one owner (a double release corrupts the next accepted message; shared with C20)", Floor: 1, Run: r20e},
